@@ -56,6 +56,7 @@ struct Ctx
   std::set<Type *> defined, inprogress;
   unsigned tcount = 0;
   std::set<unsigned> oddw;
+  bool ufmul = false;
   std::set<std::string> used_tnames;
   std::map<const GlobalValue *, std::string> gnames;
   std::set<std::string> used_gnames;
@@ -539,7 +540,13 @@ void FnEmitter::emit_inst(const Instruction &I)
     {
     case Instruction::Add: ovf("plus"); out << ind << lhs() << "(" << U << ")(" << a << " + " << b << ");\n"; break;
     case Instruction::Sub: ovf("minus"); out << ind << lhs() << "(" << U << ")(" << a << " - " << b << ");\n"; break;
-    case Instruction::Mul: ovf("mult"); out << ind << lhs() << "(" << U << ")(" << a << " * " << b << ");\n"; break;
+    case Instruction::Mul:
+      ovf("mult");
+      if (C.ufmul && (w == 32 || w == 64) && !isa<ConstantInt>(BO->getOperand(0)) && !isa<ConstantInt>(BO->getOperand(1)))
+        out << ind << lhs() << "VF_UFMUL" << w << "(" << a << ", " << b << ");\n"; // uninterpreted product: the proof holds for every binary function in place of *
+      else
+        out << ind << lhs() << "(" << U << ")(" << a << " * " << b << ");\n";
+      break;
     case Instruction::UDiv: chk(b + " != 0", "UB: division by zero"); out << ind << lhs() << "(" << U << ")(" << a << " / " << b << ");\n"; break;
     case Instruction::URem: chk(b + " != 0", "UB: remainder by zero"); out << ind << lhs() << "(" << U << ")(" << a << " % " << b << ");\n"; break;
     case Instruction::SDiv:
@@ -1169,6 +1176,7 @@ static std::string jesc(const std::string &s)
 int main(int argc, char **argv)
 {
   std::string inpath, outpath, sympath, hdrpath;
+  bool ufmul = false;
   std::vector<std::string> specs;
   for (int i = 1; i < argc; ++i)
   {
@@ -1181,6 +1189,8 @@ int main(int argc, char **argv)
       sympath = argv[++i];
     else if (a == "-hdr" && i + 1 < argc)
       hdrpath = argv[++i];
+    else if (a == "-ufmul")
+      ufmul = true;
     else if (inpath.empty())
       inpath = a;
     else
@@ -1203,6 +1213,7 @@ int main(int argc, char **argv)
     return 2;
   }
   Ctx C(*M);
+  C.ufmul = ufmul;
   for (auto &sp : specs)
     load_contracts(C, sp);
   std::ostringstream body, protos, globals, gfwd, sym, cleanprotos;
